@@ -176,7 +176,7 @@ class SampleWorld:
             self.error = "sample could not be summarised: %s" % u.what
             return
         self.undecided = I.undecided
-        if not (isinstance(res, Opt) and res.some is True and isinstance(res.payload, Struct)):
+        if not (isinstance(res, Opt) and res.some is not False and isinstance(res.payload, Struct)):   # Ok, possibly under the error exits' negated conditions
             self.error = "sample's result is not Ok(TropicalSampleResult{..}) on the main path"
             return
         self.result = res.payload
@@ -558,7 +558,7 @@ class MatrixWorld:
         except Undecided as u:
             self.error = "decompose_for_tropical could not be summarised: %s" % u.what
             return
-        if not (isinstance(res, Opt) and res.some is True and isinstance(res.payload, Struct)):
+        if not (isinstance(res, Opt) and res.some is not False and isinstance(res.payload, Struct)):   # Ok, possibly under the error exits' negated conditions
             self.error = "no Ok(DecompositionResult{..}) on the main path"
             return
         self.result = res.payload
@@ -1203,6 +1203,7 @@ def run_c06d(ctx):
                 args.append(world.GraphIdVal("g"))
             else:
                 args.append(Num(Expr.symbol("uniform")))
+        I.fold_early = False      # the in-loop return is accounted for below: every early return must be the pair (e, g∖e)
         try:
             I.run_fn(scan.path, args)
         except Undecided:
@@ -1221,10 +1222,11 @@ def run_c06d(ctx):
         ctx.ob("C06-d", "p_e == J[g∖e]·J[g]⁻¹·ω[g∖e]⁻¹ with e an edge of g", ok_key and got == want, scan.path, "edge-probability",
                detail="running sum += %s (expected %s)" % (got.key()[:300], want.key()[:300]))
         e_name = gk[len("pop(g,«"):-2]
-        rets = [v_ for c_, v_ in I.early_returns if isinstance(v_, Tup) and len(v_.items) == 2]
-        ok_ret = any(isinstance(r_.items[0], Num) and r_.items[0].ent == e_name and isinstance(r_.items[1], world.GraphIdVal) and r_.items[1].key_ == gk for r_ in rets)
-        ctx.ob("C06-d", "the in-loop return is (e, g∖e) for the same e", ok_ret, scan.path, "edge-probability-return",
-               detail="returns %s" % [(getattr(r_.items[0], "ent", None), getattr(r_.items[1], "key_", None)) for r_ in rets])
+        rets = [v_ for c_, v_ in I.early_returns]
+        ok_ret = bool(rets) and all(isinstance(r_, Tup) and len(r_.items) == 2 and isinstance(r_.items[0], Num) and r_.items[0].ent == e_name
+                                    and isinstance(r_.items[1], world.GraphIdVal) and r_.items[1].key_ == gk for r_ in rets)
+        ctx.ob("C06-d", "every early return of the scan is (e, g∖e) for the edge e just added", ok_ret, scan.path, "edge-probability-return",
+               detail="returns %s" % [repr(r_)[:80] for r_ in rets])
     guarded_clause(ctx, "C06-d", scan.path, "edge-probability", body)
 
 
@@ -2002,6 +2004,7 @@ def run_c03_loops(ctx, RID="C03-f", soft=False):
         tg = Struct("TropicalGraph", {"dod": Num(Expr.symbol("dod")), "topology": topo, "num_massive_edges": Num(Expr.symbol("n_massive")),
                                       "external_vertices": Arr(("X",), lambda v: Num(Expr.leaf("ext", v)), name="externals"), "num_loops": num_size("L")})
         S = Arr(("S",), lambda k: Num(Expr.leaf("$ix", k), ent=k), name="subset")
+        I.fold_early = False      # the only early exit allowed is `empty set -> 0`, checked strictly below
         res = I.run_fn(fn, [tg, S])
         got = scalar_of(res, "loop number")
         ers = [(c, v) for c, v in I.early_returns]
@@ -2042,7 +2045,7 @@ class TableWorld:
         I = Interp(f, models=hooks)
         self.I = I
         res = I.run_fn(tb.path, [world.tropical_graph(), Num(Expr.symbol("D"), size="D")])
-        if not (isinstance(res, Opt) and res.some is True and isinstance(res.payload, Struct)):
+        if not (isinstance(res, Opt) and res.some is not False and isinstance(res.payload, Struct)):   # Ok, possibly under the error exits' negated conditions
             raise Undecided("table builder has no Ok(table) main path")
         self.result = res.payload
         self.tb = tb
@@ -2107,6 +2110,7 @@ def run_c04(ctx):
         env = Interp.Env()
         env.define("T", table)
         from ..kern.interp import PlaceRef
+        I.fold_early = False      # the memo exit is accounted for below: it must be the only early return
         res = I.run_fn(jrec.path, [g, PlaceRef("T", [])], env)
         k = fresh("k")
         pk = "pop(g,edge(g,%s))" % k
@@ -2121,7 +2125,7 @@ def run_c04(ctx):
                detail="code ≠ reference (%s)\n        code:      %s\n        reference: %s" % (why, got.simplified().key()[:600], want.simplified().key()[:600]))
         # memo: early return under the memo condition returns the memo value at key g
         ers = [(c, v) for c, v in I.early_returns]
-        memo_ok = any(c == "memo(g)" and isinstance(v, Num) and v.expr == Expr.atom(("call", "Jmemo", "g")) for c, v in ers)
+        memo_ok = all(c == "memo(g)" and isinstance(v, Num) and v.expr == Expr.atom(("call", "Jmemo", "g")) for c, v in ers)
         ctx.ob("C04-a", "memoised value is read at key g and returned unchanged", memo_ok, jrec.path, "memo-read-key", detail="early returns %s" % [c for c, _v in ers])
         writes = [(path, val, conds) for (var, path, op, val, conds) in I.write_log if var == "T"]
         keys = set(p[0][1] for p, v, c in writes if p and p[0][0] == "idx")
